@@ -42,9 +42,10 @@ def imported(i: int, alone: bool, extra: bool, two: bool) -> bool:
 
 def conditions(prop, tier):
     t = 280 if tier == 'quick' else 1500
-    return [dict(name='C08.imported-modules', fn='imported', fixed={}, timeout=t,
+    return [dict(name='%s.imported-modules.a%d.e%d' % (prop, alone, extra), fn='imported', fixed=dict(alone=alone, extra=extra), timeout=t,
                  bounds='every (module, symbol) entry of the SMIv1->SMIv2 import map, imported alone or next to an unconverted symbol, with '
-                        '0-2 further IMPORTS: MibInfo.imported names the module written in the text and the SMIv2 home(s)')]
+                        '0-2 further IMPORTS: MibInfo.imported names the module written in the text and the SMIv2 home(s)')
+            for alone in (False, True) for extra in (False, True)]
 
 
 def selftests(prop):
